@@ -1,5 +1,6 @@
 (* Correspondence checker for C15: the model (model/Provider.v over the pointer ring of
-   model/CList.v) is run on the step history the real cursor.Provider executed; after every step
+   model/CList.v, the variant of provider.go the theorems of props/C15.v are about: `code_variant`)
+   is run on the step history the real cursor.Provider executed; after every step
    the result of the step and a snapshot (cached ids, per-cursor release count, net acquisitions
    per partition) are compared with what the implementation showed. *)
 From LR Require Export lib.Base model.CList model.Provider.
@@ -12,7 +13,7 @@ Definition res_eqb (a b : res) : bool :=
   | RHit x, RHit y => Nat.eqb x y
   | RNew x, RNew y => Nat.eqb x y
   | RRefused, RRefused | RMiss, RMiss | RNewErr, RNewErr | REmpty, REmpty
-  | RInserted, RInserted | RDone, RDone | RNone, RNone => true
+  | RInserted, RInserted | RInsRefused, RInsRefused | RDone, RDone | RNone, RNone => true
   | RReleased i p, RReleased j q => N.eqb i j && pos_eqb p q
   | _, _ => false
   end.
@@ -32,7 +33,7 @@ Fixpoint run_obs (np : nat) (s : prov) (ops : list op) : list (res * snap) * boo
   match ops with
   | [] => ([], false)
   | o :: t =>
-    match step s o with
+    match step code_variant s o with
     | Ok (s', r) => let '(l, p) := run_obs np s' t in ((r, snapshot np s') :: l, p)
     | _ => ([], true)
     end
@@ -47,14 +48,14 @@ Fixpoint all2 {A B : Type} (f : A -> B -> bool) (a : list A) (b : list B) : bool
 
 Inductive case :=
 | KScript (max : nat) (idle busyto : Z) (np : nat) (ops : list op) (observed : list obs) (panicked : bool)
-          (disc : bool)   (* the harness's verdict on the client discipline (it decides how an oracle violation is classed) *)
+          (disc : bool)   (* the harness's verdict on the client discipline (no id requested again while in flight, unless cached and busy): it tags the input distribution *)
 | KStress.     (* concurrent stress run: oracle only, nothing to compare *)
 
 Definition check (c : case) : bool :=
   match c with
   | KScript max idle busyto np ops observed panicked disc =>
       let '(l, p) := run_obs np (init max idle busyto) ops in
-      all2 obs_eqb l observed && Bool.eqb p panicked && Bool.eqb (disciplined (init max idle busyto) ops) disc
+      all2 obs_eqb l observed && Bool.eqb p panicked && Bool.eqb (disciplined code_variant (init max idle busyto) ops) disc
   | KStress => true
   end.
 
